@@ -122,8 +122,9 @@ def write(prop, tier, seed, sel, results, metas, overlay_info, wall, violations,
         "property_id": prop, "tier": tier, "seed": seed, "level": level, "coverage": cov,
         "assumptions": assumptions, "wall_s": round(wall, 1), "violations": len(violations),
     }
-    os.makedirs(os.path.join(HERE, "evidence"), exist_ok=True)
-    path = os.path.join(HERE, "evidence", f"{prop}.json")
+    evdir = os.environ.get("FLACVERIF_EVIDENCE_DIR") or os.path.join(HERE, "evidence")
+    os.makedirs(evdir, exist_ok=True)
+    path = os.path.join(evdir, f"{prop}.json")
     with open(path, "w") as f:
         json.dump(ev, f, indent=1)
     return path
